@@ -1,7 +1,7 @@
 (* Property C10 — UDP datagram fidelity and session isolation.
    Model: Udp.v (session table of the reverse UDP listener; dispatch of frames by session id) and the codecs of
    C03 (SOCKS5 UDP header, RPFM frame) for payload fidelity. *)
-From RP Require Import Base Target Socks Frames C03Proofs Udp UdpProofs.
+From RP Require Import Base Target Socks Frames Frag FragProofs C03Proofs Udp UdpProofs QuicDgram QuicDgramProofs.
 From RP.Gen Require Gen_udp.
 
 (* every datagram, the first of a session included, is handed on exactly once and in order *)
@@ -45,9 +45,53 @@ Print Assumptions C10_first_datagram_lost_refuted_v0.
 
 Theorem C10_source_shape :
   Gen_udp.reverse_first_datagram_forwarded = true /\ Gen_udp.reverse_known_session_forwarded = true /\
-  Gen_udp.quic_frames_dispatched_by_session_id = true.
+  Gen_udp.quic_frames_dispatched_by_session_id = true /\
+  Gen_udp.quic_fragment_ids_shared_by_all_writers = true /\ Gen_udp.quic_one_reassembly_table_per_connection = true.
 Proof. repeat split; reflexivity. Qed.
 Print Assumptions C10_source_shape.
+
+(* ---- UDP carried as QUIC datagrams: payloads larger than one QUIC packet, any number of sessions on one connection --- *)
+
+(* Any number of sessions write any encodable frames (1..127 fragments each at the reported datagram size) into one
+   connection, fragment ids taken the way the source takes them (Gen_udp: one counter for all writers); the connection
+   delivers every datagram once, in ANY order and interleaving (`sched`).  Then, for every write, the outputs of the
+   peer's single reassembly table at the positions of that write's datagrams are: nothing, ..., the frame with the
+   writer's session id, address and payload unchanged - once -, nothing, ...: exactly one datagram with identical
+   payload, labelled with its own session, whatever the other sessions send at the same time. *)
+Theorem C10_quic_datagram_hop_exact :
+  forall ovf_tx ovf_rx mtu timeout now start (ws : list wr) sent sched,
+  len ws <= 65536 ->
+  Forall (fun w => frame_ok (stamp (fst w) (snd w))) ws ->
+  send_all ovf_tx mtu (ids_of Gen_udp.quic_fragment_ids_shared_by_all_writers start ws) ws = Ok sent ->
+  Forall (fun frs => (1 <= length frs <= 127)%nat) sent ->
+  complete sent sched ->
+  forall k, (k < length ws)%nat ->
+    let w := nth k ws wr0 in
+    exists pre post : list nat,
+      (length pre + length post + 1 = length (nth k sent []))%nat /\
+      select Frames.frame (nth k (ids_of Gen_udp.quic_fragment_ids_shared_by_all_writers start ws) 0) (wire_of sent sched)
+             (recv_wire ovf_rx timeout now fs_empty (wire_of sent sched)) =
+      repeat (Ok None) (length pre) ++ Ok (Some (stamp (fst w) (snd w))) :: repeat (Ok None) (length post).
+Proof. exact dgram_hop_exact. Qed.
+Print Assumptions C10_quic_datagram_hop_exact.
+
+(* the ids of up to 65536 writes in flight are pairwise different, so no two frames share an entry of the table *)
+Theorem C10_shared_fragment_ids_distinct : forall start ws,
+  len ws <= 65536 -> NoDup (ids_of Gen_udp.quic_fragment_ids_shared_by_all_writers start ws).
+Proof. exact shared_ids_distinct. Qed.
+Print Assumptions C10_shared_fragment_ids_distinct.
+
+(* what fix c86bb78 repaired: with one counter per writer two sessions that send at the same time are mixed - session 1
+   is handed a datagram that ends in session 2's bytes, session 2 is handed nothing *)
+Theorem C10_per_writer_fragment_ids_refuted :
+  exists ws sent sched,
+    ids_of false 0 ws = [0; 0] /\
+    send_all false 20 (ids_of false 0 ws) ws = Ok sent /\ complete sent sched /\
+    let outs := recv_wire false 5000 0 fs_empty (wire_of sent sched) in
+    handed_to 1 outs = [mk_frame None 1 [1; 2; 3; 4; 105; 106; 107; 108; 109; 110]] /\
+    handed_to 2 outs = [].
+Proof. exact per_writer_ids_mix. Qed.
+Print Assumptions C10_per_writer_fragment_ids_refuted.
 
 Example C10_example :
   of_session 2 (u_handed (accept_all [(1, [10]); (2, [20]); (1, [11]); (2, [21])])) = [[20]; [21]].
